@@ -30,12 +30,28 @@ BOUNDARY_TEMPLATES = [
     'x=abc; echo ${x:N#1}', 'seq N N 2>/dev/null | head -1', 'a=(); a[N]=x; echo ${#a[@]}', 'declare -a a; a+=([N]=y); echo ${!a[@]}', 'let "x = N"', 'echo ${x:-N}{N,N}',
     'trap "echo t" N', 'set -- $(printf "%Ns" x); echo $#', 'printf -v v "%Ns" x; echo ${#v}', 'mapfile -n N -s N a <<< x', 'fc -l N 2>/dev/null', 'cd -N 2>/dev/null',
     'declare -c x; x=N', 'declare -u x=N; declare -l y=N', 'enable -n N', 'type -N', 'command -N', 'caller N', 'wait %N', 'fg %N', 'bg %N', 'jobs %N', 'disown %N',
+    "mapfile -O N a <<< $'x\\ny\\nz'; echo ${#a[@]}", 'mapfile -s N -n N a <<< x', 'mapfile -u N a', 'mapfile -c N -C : a <<< x', 'readarray -O N -t a <<< x', 'read -u N v',
+    'read -N N v <<< abc', 'read -d N v <<< abc', 'a=(1 2 3); unset "a[N]"; echo ${#a[@]}', 'a=(1 2 3); echo ${#a[N]} ${a[@]:N}', 'printf "%(%s)T\\n" N', 'wait -n N', 'kill -l N',
+    'echo ${x:N:N}{N..N}', 'x=abc; echo ${x: N: N}', 'set -- a b c; echo "${@:N}" "${*:N:N}"', 'declare -a a; a[N]=1; a[-N]=2', 'local_f() { local -a l; l[N]=1; }; local_f', 'trap - N',
+    'fc -e : N', 'hash -p /bin/true N; N', 'type -P N', 'cd -L N', 'getopts N o', 'getopts ab o -N', 'let N', 'let "N++"', 'test -t N', '[ -v "a[N]" ]', '[[ -v a[N] ]]',
     'suspend -N', 'times N', 'hash -d N', 'printf "\\xN\\uN\\UN"', "echo $'\\xN\\uN\\N'", 'x=$(printf "\\\\D{%%N}"); echo "${x@P}"', 'PS1="\\D{%N}"; echo "${PS1@P}"',
 ]
 BOUNDARY_VALUES = mutate.BOUNDARY + ["", "-0", "0x7fffffffffffffff", "1e9", "éa", "🚀", "9" * 40, "-" + "9" * 40, "0" * 30 + "1", "+5", " 5 ", "a", "*", "-c", "--"]
 
 LADDERS = ["$( %s )", "$(( %s ))", "{ %s; }", "( %s )", "\"${x:-%s}\"", "`%s`", "if true; then %s; fi", "f() { %s; }; f", "eval '%s'", "${x:-${y:-%s}}", "[[ ( %s ) ]]",
            "((( %s )))", "case x in x) %s;; esac", "while false; do %s; done", "echo {a,%s}", "\"%s\"", "$'%s'", "<( %s )", "x=( %s )", "! %s"]
+
+
+# ladders with their own innermost operand and outer wrapper: (template, base, outer)
+LADDERS2 = [("a[%s]", "0", "a=(0 0 0); echo $(( %s ))"), ("${a[%s]}", "0", "a=(0 0 0); echo %s"), ("${a[$((%s))]}", "0", "a=(0 0 0); echo %s"),
+            ("!(%s)", "x", "shopt -s extglob\n[[ x == %s ]]; echo $?"), ("+(%s)", "x", "shopt -s extglob\n[[ x == %s ]]; echo $?"),
+            ("@(%s|y)", "x", "shopt -s extglob\ncase x in %s) echo m;; esac"), ("!(%s)", "x", "shopt -s extglob\necho %s"), ("*(%s)", "x", "shopt -s extglob\nv=xx; echo ${v##%s}"),
+            ("eval %s", "echo x", "%s"), ("${x:-%s}", "y", "echo %s"), ("${x:+%s}", "y", "x=1; echo %s"), ("\"${x:-%s}\"", "y", "echo %s"), ("(%s)", "1", "echo $(( %s ))"),
+            ("-%s", "1", "echo $(( %s ))"), ("%s?1:2", "1", "echo $(( %s ))"), ("1?%s:2", "1", "echo $(( %s ))"), ("x=%s", "1", "echo $(( %s ))"), ("%s+1", "1", "echo $(( %s ))"),
+            ("{a,%s}", "b", "echo %s"), ("[%s]", "a", "case a in %s) echo m;; esac"), ("! %s", "true", "%s; echo $?"), ("$(%s)", "echo x", "echo %s"),
+            ("\"$(%s)\"", "echo x", "echo %s"), ("`%s`", "echo x", "echo %s"), ("[[ ! ( %s ) ]]", "a == a", "%s; echo $?"), ("if %s; then :; fi", "true", "%s"),
+            ("f() { %s; }; f", "echo x", "%s"), ("<(%s)", "echo x", "cat %s"), ("${x/%s/y}", "a", "x=a; echo %s"), ("${x#%s}", "a", "x=a; echo %s"), ("${#x[%s]}", "0", "x=(1); echo %s"),
+            ("$((%s))", "1", "echo %s"), ("${!%s}", "x", "x=x; echo %s"), ("a[%s]=1", "0", "%s; echo ${#a[@]}"), ("time %s", "true", "%s"), ("coproc_free() { %s; }", ":", "%s")]
 
 
 def ladder_scripts():
@@ -57,6 +73,29 @@ def ladder_scripts():
                     break
             if ok:
                 out.append(s)
+    for tpl, base, outer in LADDERS2:
+        for depth in (1, 2, 3, 4, 6, 8, 12, 16, 32, 64):
+            if "!(" in tpl and depth > 8:
+                continue            # open finding C01-F4 (the regex for a negated group doubles per nesting level)
+            s = base
+            for _ in range(depth):
+                s = tpl % s
+            if len(s) <= 20000:
+                out.append(outer % s if "%s" in outer else outer)
+    return out
+
+
+PRINTF_FORMATS = ["%s", "%d", "%c", "%b", "%q", "%x", "%5s", "%-5s", "%.2s", "%*s", "%%", "\\c", "a\\c%s", "a\\cb", "\\x", "\\x4", "\\xZ", "\\0", "\\0101", "\\u", "\\u00e9", "\\uD800",
+                  "\\U", "\\U00110000", "\\e", "%", "%z", "%(%Y)T", "%(", "%(%", "%5", "%.", "%5.", "%#x", "%+d", "% d", "%05d", "%'d", "%ld", "%lld", "%n", "%1$s", "%-", "%*", "%.*s",
+                  "%s%s%s", "%b%b", "%c%c", "\\", "\\z", "%s\\c%s", "\\1", "\\8", "%e", "%f", "%g", "%a", "%i", "%o", "%u", "%X", "%E", "%G", "%5c", "%.0s", "%99999999999s", "%.99999999999s"]
+PRINTF_ARGS = ["", "x y", "x", "1 2 3", "-1", "é", "'a\\cb' z", "'\\c'", "0x10 010 1e3", "9223372036854775808", "'' ''"]
+
+
+def printf_scripts():
+    out = []
+    for f in PRINTF_FORMATS:
+        for a in PRINTF_ARGS:
+            out.append("printf '%s' %s\necho; echo rc=$?\nprintf -v v '%s' %s; echo ${#v}\n" % (f, a, f, a))
     return out
 
 
@@ -241,7 +280,7 @@ def hang_probe(script, window=25.0):
         except subprocess.TimeoutExpired:
             pass
         cur = (os.path.getsize(evlog), os.path.getsize(outp))
-        if cur == last:
+        if cur[0] == last[0]:          # progress = the interpreter starting commands; a builtin that prints forever is not progress
             quiet += 1
         else:
             quiet = 0
@@ -351,8 +390,11 @@ def judge_script(run, item, binary=None, r=None):
         if b"maximum function nesting level exceeded" in rh.err:
             run.count("unbounded_recursion_in_input_beyond_300_levels")
             return
-        if b"syntax error" in rh.err and static_call_cycle(script):
-            run.count("recursive_function_in_input_that_bash_rejects_earlier")
+        if static_call_cycle(script):
+            # the script's own functions can reach themselves (typically a mutated definition whose body swallowed its callers);
+            # where bash escapes the recursion only through a different error path (a `return` with bad arguments returns in bash
+            # and carries on in brush, a syntax error brush does not see) the overflow is still recursion written in the input
+            run.count("recursive_function_in_input_static_call_cycle")
             return
     kf = run.findings.match_signature(site)
     if kf:
@@ -409,7 +451,7 @@ def judge_slow(run):
                 run.findings.report(kf)
                 continue
             run.violation("C01|%s|%s" % (sig, script[:40]), {"kind": "hang", "origin": origin, "script": script[:3000], "probe": detail,
-                                                               "what": "no command started and no output for 50 s while bash finishes the script"})
+                                                               "what": "no command started for 50 s while bash finishes the script"})
     run.slow = [s[:300] for _, s in run.slow[:3]]
 
 
@@ -453,6 +495,8 @@ def corpus(run, quick, scale):
         items.append(("boundary", s))
     for s in ladder_scripts():
         items.append(("ladder", s))
+    for s in printf_scripts():
+        items.append(("printf", s))
     for s in string_scripts(rng, int((2500 if quick else 10**9) * scale)):
         items.append(("string", s))
     for s in cycle_scripts(rng, int((500 if quick else 30000) * scale)):
